@@ -11,10 +11,10 @@ use zipora::succinct::BitVector;
 const HEADER: &str = r#"From Coq Require Import List NArith ZArith Bool.
 Import ListNotations.
 From ZV.Common Require Import Run.
-From ZV.C04 Require Import Spec Model.
-Definition case_t : Type := list (bool * N) * bool * bool * list (N * N) * list Z.
+From ZV.C04 Require Import Spec Model ModelRun.
+Definition case_t : Type := list (bool * N) * bool * bool * N * list (N * N) * list Z.
 Definition ok (c : case_t) : bool :=
-  let '(runs, sp0, sp1, qs, expect) := c in eqb_lz (run_queries (expand runs) sp0 sp1 qs) expect.
+  let '(runs, sp0, sp1, rate, qs, expect) := c in eqb_lz (run_queries2 (expand runs) sp0 sp1 rate qs) expect.
 "#;
 
 struct Ctx { sum: Summary, shards: CoqShards, budget: usize, all_queries: bool }
@@ -124,6 +124,8 @@ fn one_vector(cx: &mut Ctx, bits: &[bool], mode: u32, r: &mut Rng, to_coq: bool)
         }};
     }
     cell!("interleaved256", true, RankSelectInterleaved256::new(make_bv(bits, mode)));
+    cell!("interleaved256/nocache", true, RankSelectInterleaved256::with_options(make_bv(bits, mode), false, 512));
+    cell!("interleaved256/rate", true, RankSelectInterleaved256::with_options(make_bv(bits, mode), true, [1usize, 3, 64, 100, 256][n % 5]));
     cell!("se256", true, RankSelectSE256::new(make_bv(bits, mode)));
     cell!("se256/nocache", true, RankSelectSE256::with_options(make_bv(bits, mode), false, false));
     cell!("se512", true, RankSelectSE512::new(make_bv(bits, mode)));
@@ -222,10 +224,13 @@ fn one_vector(cx: &mut Ctx, bits: &[bool], mode: u32, r: &mut Rng, to_coq: bool)
     // --- Coq model comparison for SE512 (4 option combos) and FewOne
     if to_coq && mode == 0 && n <= 2600 && cx.shards.len() < cx.budget {
         let combo = (r.below(2) == 1, r.below(2) == 1);
+        let rate = *r.pick(&[1usize, 3, 64, 100, 256, 512, 512]);
         let res = guarded(|| {
             let rs = RankSelectSE512::with_options(make_bv(bits, 0), combo.0, combo.1).unwrap();
             let fw = RankSelectFewOne::from_bitvector(&make_bv(bits, 0)).unwrap();
             let il = RankSelectInterleaved256::new(make_bv(bits, 0)).unwrap();
+            let ila = RankSelectInterleaved256::with_options(make_bv(bits, 0), true, rate).unwrap();
+            let ilb = RankSelectInterleaved256::with_options(make_bv(bits, 0), false, rate).unwrap();
             let mut qs: Vec<(u32, usize)> = vec![];
             let mut sample: Vec<usize> = vec![0, n, n / 2];
             for b in [63usize, 64, 65, 511, 512, 513, 1023, 1024, 1025] { if b <= n { sample.push(b); } }
@@ -236,6 +241,20 @@ fn one_vector(cx: &mut Ctx, bits: &[bool], mode: u32, r: &mut Rng, to_coq: bool)
             let no = o.ones.len(); let nz = o.zeros.len();
             for k in [0usize, 1, no / 2, no.saturating_sub(1), no, no + 1] { qs.push((2, k)); qs.push((6, k)); }
             for k in [0usize, 1, nz / 2, nz.saturating_sub(1), nz] { qs.push((3, k)); }
+            // interleaved-256 select: cache on (sampled hints + linear search), cache off (binary search + in-line scan),
+            // select0, and the entry points that forward to select1_cache_optimized
+            let mut ks1: Vec<usize> = vec![0, 1, no / 2, no.saturating_sub(1), no, no + 1, rate.saturating_sub(1), rate, 2 * rate];
+            for _ in 0..3 { ks1.push(Rng::new((n + no + ks1.len()) as u64).below(no as u64 + 1) as usize); }
+            // the ones just before / at / after every 256-bit line boundary
+            for b in [256usize, 512, 768, 1024, 2048] { if b <= n { let q = o.pre[b]; ks1.push(q.saturating_sub(1)); ks1.push(q); } }
+            ks1.sort(); ks1.dedup();
+            for &k in &ks1 { qs.push((11, k)); qs.push((13, k)); }
+            let mut ks0: Vec<usize> = vec![0, 1, nz / 2, nz.saturating_sub(1), nz, nz + 1];
+            for _ in 0..3 { ks0.push(Rng::new((n + nz + ks0.len()) as u64).below(nz as u64 + 1) as usize); }
+            for b in [256usize, 512, 768, 1024, 2048] { if b <= n { let q = b - o.pre[b]; ks0.push(q.saturating_sub(1)); ks0.push(q); } }
+            ks0.sort(); ks0.dedup();
+            for &k in &ks0 { qs.push((12, k)); }
+            for k in [0usize, no / 3, no.saturating_sub(1), no] { qs.push((14, k)); qs.push((15, k)); qs.push((16, k)); qs.push((17, k)); qs.push((18, k)); }
             qs.push((4, n));
             let ans: Vec<i128> = qs.iter().map(|&(op, a)| match op {
                 0 => rs.rank1(a) as i128, 1 => rs.rank0(a) as i128,
@@ -243,14 +262,21 @@ fn one_vector(cx: &mut Ctx, bits: &[bool], mode: u32, r: &mut Rng, to_coq: bool)
                 4 => rs.get(a).map(|b| b as i128).unwrap_or(-1),
                 5 => fw.rank1(a) as i128, 6 => fw.select1(a).map(|x| x as i128).unwrap_or(-1),
                 8 => il.rank1(a) as i128, 9 => il.rank0(a) as i128, 10 => il.get(a).map(|b| b as i128).unwrap_or(-1),
+                11 => ila.select1(a).map(|x| x as i128).unwrap_or(-1), 12 => ila.select0(a).map(|x| x as i128).unwrap_or(-1),
+                13 => ilb.select1(a).map(|x| x as i128).unwrap_or(-1),
+                14 => ila.select1_hardware_accelerated(a).map(|x| x as i128).unwrap_or(-1),
+                15 => ila.select1_adaptive(a).map(|x| x as i128).unwrap_or(-1),
+                16 => ilb.select1_optimized(a).map(|x| x as i128).unwrap_or(-1),
+                17 => ila.select1_bulk(&[a]).map(|v| v[0] as i128).unwrap_or(-1),
+                18 => ilb.select1_bulk_optimized(&[0, a]).map(|v| v[1] as i128).unwrap_or(-1),
                 _ => fw.get(a).map(|b| b as i128).unwrap_or(-1) }).collect();
             (qs, ans)
         });
         if let Ok((qs, ans)) = res {
             let runs_coq: Vec<String> = runs.iter().map(|(b, k)| format!("({}, {}%N)", coq_bool(*b), k)).collect();
             let qs_coq: Vec<String> = qs.iter().map(|(op, a)| format!("({}%N, {}%N)", op, a)).collect();
-            let term = format!("([{}], {}, {}, [{}], {})", runs_coq.join("; "), coq_bool(combo.0), coq_bool(combo.1), qs_coq.join("; "), coq_z_list(ans.iter().cloned()));
-            cx.shards.push(term, json!({"runs": cj["runs"], "mode": 0, "speed_select": [combo.0, combo.1]}));
+            let term = format!("([{}], {}, {}, {}%N, [{}], {})", runs_coq.join("; "), coq_bool(combo.0), coq_bool(combo.1), rate, qs_coq.join("; "), coq_z_list(ans.iter().cloned()));
+            cx.shards.push(term, json!({"runs": cj["runs"], "mode": 0, "speed_select": [combo.0, combo.1], "il_sample_rate": rate}));
         }
     }
 }
